@@ -117,6 +117,7 @@ class Run:
         for d in EVENTS.values():
             for lst in d.values():
                 names.update(lst)
+        names.update(TIMED_NAMES)
         for n in sorted(names):
             self.m.events.add_handler(n, functools.partial(self._evt, n))
         init = {sw: (self.m.switches[sw].state, self.m.switches[sw].hw_state) for sw in SW}
@@ -159,6 +160,12 @@ class Run:
         return self.log
 
 
+# configured events with a hold time ("event|ms", unitless = ms): posted once, that long after the change, if held
+TIMED_EVENTS = {"s_no1": {1: [("ev_on_held", 30), ("ev_on_u", 20)], 0: [("ev_off_held", 40)]},
+                "s_nc1": {1: [("evn_on", 25)]}}
+TIMED_NAMES = {n for d in TIMED_EVENTS.values() for lst in d.values() for n, _ in lst}
+
+
 class Oracle:
     def __init__(self, case, log):
         self.case = case
@@ -173,6 +180,7 @@ class Oracle:
         self.immediate = []     # dicts(hid, rid) expected synchronously
         self.optional_immediate = []
         self.exp_events = []
+        self.timed_ev = []      # dicts(name, sw, due, optional)
         self.nrid = 0
 
     def v(self, sig, msg):
@@ -227,6 +235,12 @@ class Oracle:
                         else:
                             self.pending.append({"rid": r["rid"], "hid": r["hid"], "due": T + hh["ms"], "optional": False})
                 self.exp_events = [sw + ("_active" if logical else "_inactive")] + list(EVENTS.get(sw, {}).get(logical, []))
+                for p in list(self.timed_ev):
+                    if p["sw"] == sw:
+                        self.timed_ev.remove(p)     # the state was left before (or exactly at) the deadline
+                for name, ms in TIMED_EVENTS.get(sw, {}).get(logical, []):
+                    self.timed_ev.append({"name": name, "sw": sw, "due": T + ms})
+                    self.classes.add("configured event with hold time armed")
             elif k == "SYNC_END":
                 self.close_sync("T=%d" % T)
             elif k == "STATE":
@@ -275,7 +289,14 @@ class Oracle:
                 self.on_call(hid, t)
             elif k == "EVT":
                 _, name, t = e
-                if name in self.exp_events:
+                if name in TIMED_NAMES:
+                    hit = [p for p in self.timed_ev if p["name"] == name and abs(p["due"] - t) < 1e-3]
+                    if hit:
+                        self.timed_ev.remove(hit[0])
+                    else:
+                        self.v("timed-event-unexpected", "configured event %s posted at %.3f ms; outstanding deadlines: %r "
+                               "(last report %r)" % (name, t, [(p["name"], p["due"]) for p in self.timed_ev], last_report))
+                elif name in self.exp_events:
                     self.exp_events.remove(name)
                 else:
                     self.v("event-unexpected", "event %s posted at %.3f ms without a real change that configures it "
@@ -293,6 +314,11 @@ class Oracle:
                 self.close_events("T=%d" % T)
             elif k == "ADVANCED":
                 T = e[1]
+                for p in list(self.timed_ev):
+                    if p["due"] < T:
+                        self.v("timed-event-missing", "configured event %s of %s was due at T=%d ms (switch held) and had not "
+                               "been posted by T=%d" % (p["name"], p["sw"], p["due"], T))
+                        self.timed_ev.remove(p)
                 for p in list(self.pending):
                     if p["due"] < T and not p["optional"]:
                         hh = self.h[p["hid"]]
